@@ -91,10 +91,50 @@ def build_seed(name, A):
         return sf.Frame.from_records([A['i8'], A['i8b']], columns=A['lab'], name='f')
     if name == 'Frame-from-concat':
         return sf.Frame.from_concat((sf.Series(A['i8'], index=A['lab'], name='x'), sf.Series(A['f8'], index=A['lab'], name='y')), axis=1)
+    if name in GO_SEEDS:
+        return GO_SEEDS[name](A)[0]
+    if name == 'Series-1030-labels':
+        # more labels than the shared positions buffer initially holds (1024): the re-allocated buffer must be frozen too
+        return sf.Series(np.arange(1030), index=np.arange(1030) * 2, name='big')
     raise ValueError(name)
 
 
-SEEDS_QUICK = ['Index', 'IndexDate', 'IndexHierarchy', 'Series-float', 'Series-object', 'SeriesHE', 'Frame-mixed-1d', 'Frame-2d-block', 'FrameHE', 'Frame-zero-rows']
+def _go_index(A):
+    go = sf.IndexGO(A['lab'])
+    return sf.Index(go), (lambda: go.append('NEW')), 'NEW', (lambda c: c)
+
+
+def _go_frame_to_frame(A):
+    g = sf.FrameGO.from_items((('p', A['i8']), ('q', A['f8'])), index=A['lab'], name='f')
+    return g.to_frame(), (lambda: g.__setitem__('NEW', A['i8b'])), 'NEW', (lambda c: c.columns)
+
+
+def _go_frame_ctor(A):
+    g = sf.FrameGO.from_items((('p', A['i8']), ('q', A['f8'])), index=A['lab'], name='f')
+    return sf.Frame(g), (lambda: g.__setitem__('NEW', A['i8b'])), 'NEW', (lambda c: c.columns)
+
+
+def _go_columns_as_index(A):
+    g = sf.FrameGO.from_items((('a', A['i8']), ('b', A['f8']), ('c', A['i8b'])), name='f')
+    return sf.Series(A['i8'], index=g.columns, name='s'), (lambda: g.__setitem__('NEW', A['i8b'])), 'NEW', (lambda c: c.index)
+
+
+def _go_hier(A):
+    go = sf.IndexHierarchyGO.from_labels([('a', 1), ('a', 2), ('b', 1)])
+    return sf.IndexHierarchy(go), (lambda: go.append(('b', 2))), ('b', 2), (lambda c: c)
+
+
+def _go_frame_rename(A):
+    g = sf.FrameGO.from_items((('p', A['i8']), ('q', A['f8'])), index=A['lab'], name='f')
+    return g.rename('other').to_frame(), (lambda: g.__setitem__('NEW', A['i8b'])), 'NEW', (lambda c: c.columns)
+
+
+GO_SEEDS = {'Index(IndexGO)': _go_index, 'FrameGO.to_frame()': _go_frame_to_frame, 'Frame(FrameGO)': _go_frame_ctor, 'Series(index=FrameGO.columns)': _go_columns_as_index,
+            'IndexHierarchy(IndexHierarchyGO)': _go_hier, 'FrameGO.rename().to_frame()': _go_frame_rename}
+
+
+SEEDS_QUICK = ['Index', 'IndexDate', 'IndexHierarchy', 'Series-float', 'Series-object', 'SeriesHE', 'Frame-mixed-1d', 'Frame-2d-block', 'FrameHE', 'Frame-zero-rows',
+               'Series-1030-labels'] + list(GO_SEEDS)
 SEEDS_ALL = SEEDS_QUICK + ['IndexGO->static', 'IndexHierarchy-from-arrays', 'Series-hier', 'Frame-typeblocks', 'Frame-hier-columns', 'Frame-from-records', 'Frame-from-concat']
 DEPTH2_QUICK = {'Series-float', 'Frame-mixed-1d', 'IndexHierarchy'}
 
@@ -365,7 +405,11 @@ def check_after(ctx, tag, opname, result, existing, caller, info):
 def run_case(case, ctx):
     seed_name, chunk, depth = case
     caller = caller_arrays()
-    seed = build_seed(seed_name, caller)
+    grow = None
+    if seed_name in GO_SEEDS:
+        seed, grow, new_label, labels_of_seed = GO_SEEDS[seed_name](caller)
+    else:
+        seed = build_seed(seed_name, caller)
     s0 = snap(seed)
     info0 = dict(seed=seed_name)
     ops, not_driven = enumerate_ops(seed)
@@ -387,6 +431,24 @@ def run_case(case, ctx):
     if snap(seed) != s0:
         ctx.violation(f'{seed_name}|caller-write-visible-through-container', **info0)
         return
+    if grow is not None:
+        # the grow-only object the seed was built from grows: nothing observable through the seed may change, including membership and lookups
+        grow()
+        ctx.transition()
+        ix = labels_of_seed(seed)
+        try:
+            known = new_label in ix
+            try:
+                ix.loc_to_iloc(new_label)
+                found = True
+            except Exception:
+                found = False
+        except Exception as e:
+            ctx.violation(f'{seed_name}|seed-unusable-after-source-grew-{type(e).__name__}', **info0)
+            return
+        if snap(seed) != s0 or known or found:
+            ctx.violation(f'{seed_name}|growth-of-the-source-visible-through-the-static-container', **info0, snapshot_changed=snap(seed) != s0, label_known=known, label_found=found)
+            return
     pool = {}
     mine = [op for i, op in enumerate(ops) if i % CHUNKS == chunk]
     for opname, fn in mine:
